@@ -178,11 +178,15 @@ func (nr *nativeRunner) build(prog *Program, harnesses []string) error {
 		pkgDir = nr.modDir
 	}
 	replace := map[string]string{}
+	_ = pkgDir
 	for virt, data := range prog.overlay {
-		if filepath.Dir(virt) != pkgDir {
+		if !strings.HasPrefix(virt, nr.modDir+"/") {
 			continue
 		}
-		real := filepath.Join(wd, filepath.Base(virt))
+		if nr.modDir == repoRoot && strings.HasPrefix(virt, repoRoot+"/publish/") {
+			continue
+		}
+		real := filepath.Join(wd, strings.ReplaceAll(strings.TrimPrefix(virt, repoRoot+"/"), "/", "__"))
 		if err := os.WriteFile(real, data, 0o644); err != nil {
 			return err
 		}
